@@ -270,7 +270,7 @@ impl Scenario for CorruptScenario {
         "fault_enumeration"
     }
     fn rule_text(&self) -> String {
-        "a donor directory produced by the real engine (1-2 incarnations of appends, batches, consumption, markers; both backends) receives 1-8 seeded mutations: bit flips in entry length bytes, the rkyv metadata region, payload bytes, the first bytes of a block, the cursor index and the marker file; truncation of WAL files to {0,1,255,block-1,block,file-1,random}; zeroed ranges; garbage written in place or appended; stray files (arbitrary, numeric and over-long names, any size), left-over *.tmp files of both index files, sub-directories; a fresh process (either backend) opens it and runs counts, peeks, batch reads, offset reads, drains and an append; oracle: the process returns normally from every call (no signal, panic, deadlock or non-termination under the simulator's step budget) and every returned payload equals an entry appended to that topic (or, for the first element of an offset read, a suffix of one); distinct = distinct (donor, mutation list); non-trivial = at least one mutation was applied".into()
+        "a donor directory produced by the real engine (1-2 incarnations of appends, batches, consumption, markers; both backends) receives 1-8 seeded mutations: bit flips in entry length bytes, the rkyv metadata region, payload bytes, the first bytes of a block, the cursor index and the marker file; header fields of the first entry of any block overwritten with boundary values (0, 1, block+-1, multiples of the block size, file size - block offset +-1, 2^32, 2^64-1); truncation of WAL files to {0,1,255,block-1,block,file-1,random}; zeroed ranges; garbage written in place or appended; stray files (arbitrary, numeric and over-long names, any size), left-over *.tmp files of both index files, sub-directories; a fresh process (either backend) opens it and runs counts, peeks, batch reads, offset reads, drains and an append; oracle: the process returns normally from every call (no signal, panic, deadlock or non-termination under the simulator's step budget) and every returned payload equals an entry appended to that topic (or, for the first element of an offset read, a suffix of one); distinct = distinct (donor, mutation list); non-trivial = at least one mutation was applied".into()
     }
     fn plan_for(&self, seed_r: u64) -> Option<Plan> {
         Some(gen_corrupt(seed_r))
